@@ -364,7 +364,7 @@ fn rt(workers: usize) -> tokio::runtime::Runtime {
 
 /// the crate-private request loop of the serial RTU server, driven through a pseudo-terminal:
 /// the harness holds the master side, the server the slave side
-fn serial_server(svc: Vec<Svc>, data: &[u8], expect: usize) -> Option<String> {
+fn serial_server(svc: Vec<Svc>, data: &[u8], expect: usize, ncalls: usize) -> Option<String> {
     let (master, path) = open_pty()?;
     let runtime = rt(2);
     let key: SocketAddr = "0.0.0.0:0".parse().ok()?;
@@ -428,6 +428,13 @@ fn serial_server(svc: Vec<Svc>, data: &[u8], expect: usize) -> Option<String> {
     if let Ok(n) = m.read(&mut buf) {
         got.extend(&buf[..n]);
     }
+    // requests the service declines produce no bytes to wait for: wait for the calls themselves
+    for _ in 0..400 {
+        if calls.lock().unwrap().get(&key).map_or(0, Vec::len) >= ncalls {
+            break;
+        }
+        std::thread::sleep(Duration::from_millis(5));
+    }
     // `serve_until` must end as `Aborted` when its signal fires
     let ended_ok = if until {
         let _ = abort_tx.send(());
@@ -451,7 +458,8 @@ fn serial_server(svc: Vec<Svc>, data: &[u8], expect: usize) -> Option<String> {
 
 /// `conc <kind> | svc=… r=d… | svc=… r=d… | …` – one part per concurrent connection
 pub fn conc_op(kind: &str, conns: &[&str]) -> Option<(String, String)> {
-    let mut specs: Vec<(Vec<Svc>, Vec<u8>, usize)> = vec![];
+    // per connection: service script, request bytes, reply bytes owed, service calls owed
+    let mut specs: Vec<(Vec<Svc>, Vec<u8>, usize, usize)> = vec![];
     // `after=<j>`: this client connects before all the others but stays silent until
     // connection j has received everything it is owed
     let mut after: Vec<Option<usize>> = vec![];
@@ -482,7 +490,9 @@ pub fn conc_op(kind: &str, conns: &[&str]) -> Option<(String, String)> {
             crate::gen::split_rtu_public(&data)?.into_iter().map(|(u, p)| (0, u, p)).collect()
         };
         let mut expect = 0usize;
+        let mut ncalls = 0usize;
         for (i, (_, _, pdu)) in frames.iter().enumerate() {
+            ncalls += 1;
             let n = match svc.get(i) {
                 Some(Svc::Reply(r)) => spec::response_bytes(r).map(|b| b.len()),
                 Some(Svc::Exception(_)) => Some(2),
@@ -490,15 +500,19 @@ pub fn conc_op(kind: &str, conns: &[&str]) -> Option<(String, String)> {
             };
             let _ = pdu;
             if let Some(n) = n {
+                if n > 253 {
+                    // a reply the server refuses to encode ends the connection
+                    break;
+                }
                 expect += n + if kind == "tcp" { 7 } else { 3 };
             }
         }
-        specs.push((svc, data, expect));
+        specs.push((svc, data, expect, ncalls));
     }
     if kind == "ser" {
         // the serial RTU server (src/server/rtu.rs) on the slave side of a pty: one "connection"
-        let (svc, data, expect) = specs.first()?.clone();
-        let res = serial_server(svc, &data, expect)?;
+        let (svc, data, expect, ncalls) = specs.first()?.clone();
+        let res = serial_server(svc, &data, expect, ncalls)?;
         return Some((format!("conc {kind} | {}", conns.join(" | ")), res));
     }
     let runtime = rt(4);
@@ -542,7 +556,7 @@ pub fn conc_op(kind: &str, conns: &[&str]) -> Option<(String, String)> {
         .collect();
     let finished: Arc<(Mutex<Vec<bool>>, std::sync::Condvar)> =
         Arc::new((Mutex::new(vec![false; specs.len()]), std::sync::Condvar::new()));
-    for (i, (svc, data, expect)) in specs.iter().cloned().enumerate() {
+    for (i, (svc, data, expect, _)) in specs.iter().cloned().enumerate() {
         let scripts = scripts.clone();
         let pre = early[i].take();
         let wait_for = after[i];
@@ -609,9 +623,18 @@ pub fn conc_op(kind: &str, conns: &[&str]) -> Option<(String, String)> {
     }
     let mut outs = vec![];
     let mut locals = vec![];
-    for h in handles {
+    for (i, h) in handles.into_iter().enumerate() {
         let (local, got) = h.join().ok()??;
         locals.push(local);
+        // requests the service declines produce no bytes the client could wait for: wait for the
+        // calls themselves (bounded) before reading the log
+        let owed = specs[i].3;
+        for _ in 0..400 {
+            if calls.lock().unwrap().get(&local).map_or(0, Vec::len) >= owed {
+                break;
+            }
+            std::thread::sleep(Duration::from_millis(5));
+        }
         let c = calls.lock().unwrap().get(&local).cloned().unwrap_or_default();
         outs.push((c, got));
     }
